@@ -910,9 +910,7 @@ var kats = []kat{
 // AES response — all 255 substitutions at every byte position, every
 // truncation, every insertion of one byte.
 func TestExamplesEverySubstitution(t *testing.T) {
-	if evid.Shard() != 0 {
-		return
-	}
+	idx := 0
 	for ki, k := range kats {
 		g := unhex(k.rsp)
 		data := k.data
@@ -936,6 +934,10 @@ func TestExamplesEverySubstitution(t *testing.T) {
 		}
 		try("genuine", 0, g, false)
 		for i := range g {
+			idx++
+			if !evid.MineIdx(idx) { // byte positions are dealt round-robin to the shards
+				continue
+			}
 			for v := 0; v < 256; v++ {
 				if byte(v) != g[i] {
 					r := bytes.Clone(g)
